@@ -12,6 +12,8 @@ pub enum Scenario {
     WFault(crate::fam_wfault::WfScn),
     RFault(crate::fam_rfault::RfScn),
     Corrupt(crate::fam_corrupt::CorScn),
+    Foreign(crate::fam_foreign::ForScn),
+    HistR(crate::fam_histr::HrScn),
 }
 
 impl Scenario {
@@ -23,6 +25,8 @@ impl Scenario {
             Scenario::WFault(_) => "WFAULT",
             Scenario::RFault(_) => "RFAULT",
             Scenario::Corrupt(_) => "CORRUPT",
+            Scenario::Foreign(_) => "FOREIGN",
+            Scenario::HistR(_) => "HIST-R",
         }
     }
 }
@@ -36,6 +40,8 @@ pub fn execute(s: &Scenario, ctx: &mut Ctx) {
         Scenario::WFault(x) => crate::fam_wfault::execute(x, ctx),
         Scenario::RFault(x) => crate::fam_rfault::execute(x, ctx),
         Scenario::Corrupt(x) => crate::fam_corrupt::execute(x, ctx),
+        Scenario::Foreign(x) => crate::fam_foreign::execute(x, ctx),
+        Scenario::HistR(x) => crate::fam_histr::execute(x, ctx),
     }
 }
 
